@@ -1,5 +1,5 @@
 """C04 - formatting and comments outside the edited element are preserved byte for byte."""
-from contracts import k_offset, k_indent
+from contracts import k_offset, k_indent, k_cache
 from pyvc.contract import verify_all
 from pyvc import native
 
@@ -7,7 +7,13 @@ from pyvc import native
 def run(rep, tier, seed):
     # P: frame of the text kernel (every edit is a local splice): obligations put_src.frame.* and put_src.splice;
     #    frame of the re-indentation kernel: only lines of the given set change, and only their leading blanks
-    verify_all(rep, [s for s in k_offset.specs_text('C04') if s.name == 'put_src'] + k_indent.specs('C04'))
+    #    (sequences of edits: the next edit splices where the tree says the element is, so the frame of a sequence also
+    #    needs the position kernel - the per-node body of _offset against the declarative shift rule)
+    verify_all(rep, [s for s in k_offset.specs_text('C04') if s.name == 'put_src'] + k_indent.specs('C04') +
+               k_offset.specs('C04'))
+    # text spliced without offsetting (comment accessor): the parents' cached extents must be flushed right after, or the
+    # next edit of an enclosing block cuts at a stale end
+    k_cache.flush_structural(rep, 'C04')
     sec = native.run('b_frame', 'trivia_classes', {'tier': tier}, timeout=3600)
     rep.bounded(sec)
     sec = native.run('b_frame', 'main', {'props': ['C04'], 'tier': tier, 'seed': seed}, timeout=7200)
